@@ -121,6 +121,18 @@ func Load(dir string, cfg Config, patterns ...string) (*Prog, error) {
 	p.computeNoReturn()
 	curProg = p
 	keyMemo = map[ssa.Value]string{}
+	// render the key of every value once, in a fixed order: a key is memoised at its first rendering, and whether a
+	// helper call is seen through depends on the nesting depth of that rendering — without this the verdict for a
+	// deeply nested expression depended on which property had rendered it first
+	for _, f := range p.srcFuncs {
+		for _, b := range f.Blocks {
+			for _, in := range b.Instrs {
+				if v, ok := in.(ssa.Value); ok {
+					exprKey(v)
+				}
+			}
+		}
+	}
 	return p, nil
 }
 
